@@ -1,7 +1,7 @@
 (* C08, part 4 (balancing off): the calculation of one task reads the ledger only through the
    task's own reservations, so rows of other tasks can be added or removed without changing the
-   task's dates and reservations.  This is the step lemma of the independence clause of C08; the
-   simulation between the runs on two different WBSs is stated (c08_indep_full) but not proved. *)
+   task's dates and reservations.  This is the step lemma of the independence clause of C08; the clause
+   itself is stated here (c08_indep_full) and proved in C08IndepSim.v / C08Renumber.v. *)
 From PJ Require Import Base.Prelude Sched.Model Sched.LedgerProofs Sched.Primitives Sched.Machine
      Sched.Instances Sched.C03Proofs Sched.WfIn.
 
@@ -151,7 +151,7 @@ Proof.
   exists new. split; assumption.
 Qed.
 
-(* ---------- the full independence clause (not proved) ---------- *)
+(* ---------- the full independence clause (proved in C08Renumber.v) ---------- *)
 (* the WBS without its u-th task: later tasks move down by one *)
 Definition c08_shift (u p : nat) : nat := if (p <? u)%nat then p else Nat.pred p.
 Definition c08_renumber (u : nat) (k : itask) : itask :=
